@@ -148,7 +148,11 @@ func VerifC04Listen() {
 	ins, _ := drv.Ins()
 	outs, _ := drv.Outs()
 	var log c04log
-	stop, err := midi.ListenTo(ins[0], log.recv, midi.UseSysEx(), midi.UseTimeCode(), midi.UseActiveSense())
+	opts := []midi.Option{midi.UseSysEx(), midi.UseTimeCode(), midi.UseActiveSense()}
+	if sb := zz.Param("sxbuf"); sb > 0 {
+		opts = append(opts, midi.SysExBufferSize(uint32(sb))) // sysex of up to sb bytes in total must get through
+	}
+	stop, err := midi.ListenTo(ins[0], log.recv, opts...)
 	zz.Assert(err == nil, "listen:ok")
 	zz.Assert(outs[0].Open() == nil, "open:ok")
 	drv.Sleep(time.Duration(k1) * time.Millisecond)
